@@ -235,6 +235,74 @@ let item_str (i : item) : string =
   | IRecord t -> "(record " ^ sx_of_bytes (type_tostring t) ^ ")"
   | IArray t -> "(array " ^ sx_of_bytes (type_tostring t) ^ ")"
 
+(* ---------------------------------------------------------------- features of a type, for classifying what the
+   repository's Lark parser cannot read back (classification only; nothing here decides a verdict) *)
+let str_of_b = string_of_bytes
+let record_name_of (p : params) : string option =
+  match p with
+  | [(k, JStr s)] when str_of_b k = "__record__" ->
+    let w = str_of_b (cstr s) in
+    let alpha c = (c >= 'a' && c <= 'z') || (c >= 'A' && c <= 'Z') || c = '_' in
+    let alnum c = alpha c || (c >= '0' && c <= '9') in
+    let kw = ["var"; "option"; "bool"; "int8"; "int16"; "int32"; "int64"; "int128"; "uint8"; "uint16"; "uint32"; "uint64";
+              "uint128"; "float16"; "float32"; "float64"; "float128"; "decimal32"; "decimal64"; "decimal128"; "bignum"; "int";
+              "real"; "complex"; "intptr"; "uintptr"; "string"; "char"; "bytes"; "date"; "json"; "void"; "datetime";
+              "categorical"; "pointer"] in
+    if String.length w > 0 && alpha w.[0] && String.for_all alnum w && not (List.mem w kw) then Some w else None
+  | _ -> None
+let categorical_true (p : params) = List.exists (fun (k, v) -> str_of_b k = "__categorical__" && v = JBool true) p
+let params_empty (p : params) = p = [] || (List.length p = 1 && categorical_true p)
+let rec json_has_expnum (j : json) : bool =
+  match j with
+  | JDbl t -> let s = str_of_b t in String.contains s 'e' && not (String.contains s '.')
+  | JArr l -> List.exists json_has_expnum l
+  | JObj m -> List.exists (fun (_, v) -> json_has_expnum v) m
+  | _ -> false
+let features (t : rty) : string list =
+  let fs = ref [] in
+  let add f = if not (List.mem f !fs) then fs := f :: !fs in
+  let node (t0 : rty) (p : params) (ts : bytes) (k : unit -> unit) =
+    if ts <> [] then begin
+      (match str_of_b ts with "string" | "bytes" | "char" | "byte" -> () | _ -> add "custom-typestr");
+      if not (t0 = t_string || t0 = t_bytes || t0 = t_char || t0 = t_byte) then add "typestr-hides";
+      if categorical_true p then add "needs-hl"
+    end else begin
+      if categorical_true p then add "needs-hl";
+      if List.exists (fun (k, v) -> str_of_b k = "__categorical__" && v <> JBool true) p then add "hidden-categorical";
+      if List.exists (fun (_, v) -> json_has_expnum v) p then add "expnum";
+      k ()
+    end in
+  let rec go (t : rty) =
+    match t with
+    | RNum (p, ts, dt) ->
+      node t p ts (fun () ->
+          if not (params_empty p) then add "params";
+          (match dt with
+           | FD (DFloat32 | DFloat64 | DBool | DInt8 | DInt16 | DInt32 | DInt64 | DUInt8 | DUInt16 | DUInt32 | DUInt64) -> ()
+           | _ -> add "dtype"))
+    | RUnk (p, ts) -> node t p ts (fun () -> if not (params_empty p) then add "params")
+    | RList (p, ts, t') -> node t p ts (fun () -> if not (params_empty p) then add "params"; go t')
+    | RReg (p, ts, _, t') -> node t p ts (fun () -> add "regular"; if not (params_empty p) then add "params"; go t')
+    | ROpt (p, ts, t') ->
+      node t p ts (fun () ->
+          if not (params_empty p) then add "params"
+          else (match t' with RList _ | RReg _ -> add "needs-hl" | _ -> ());
+          go t')
+    | RUnion (p, ts, l) ->
+      node t p ts (fun () -> if not (params_empty p) then add "params"; if l = [] then add "empty"; List.iter go l)
+    | RRec (p, ts, ks, l) ->
+      node t p ts (fun () ->
+          if l = [] then add "empty";
+          (match record_name_of p with
+           | Some w ->
+             add "needs-hl";
+             if ks = None then add "named-tuple";
+             if not (String.for_all (fun c -> (c >= 'a' && c <= 'z') || (c >= 'A' && c <= 'Z')) w) then add "name-charset";
+             if List.mem w ["union"; "struct"; "tuple"; "unknown"; "byte"; "parameters"; "type"] then add "reserved-name"
+           | None -> if not (params_empty p) then add "params");
+          List.iter go l) in
+  go t; !fs
+
 (* everything derivable from a form *)
 let form_block (ts : typestrs) (f : form) : string =
   let t = type_of_form ts f in
@@ -259,6 +327,7 @@ let form_block (ts : typestrs) (f : form) : string =
     depth_block "fdepth" (f_purelist_depth f) (f_minmax_depth f) (f_branch_depth f) (f_purelist_isregular f)
       (f_numfields f) (f_keys f);
     kv "items" (res_str (fun l -> "(" ^ String.concat " " (List.map item_str l) ^ ")") (item_types ts f));
+    kv "feat" (match t with Ok t' -> String.concat " " (features t') | Err _ -> "");
     kv "printable" printable_s;
     kv "parse" parse ]
 
